@@ -1,14 +1,47 @@
-(* C03 — All serializers agree with each other and with the documented layout.  Theorems only. *)
-From QV Require Import Wire ParseOpt WireRefute.
+(* C03 — All serializers agree with each other and with the documented layout.  Theorems only;
+   proofs in theories/WireProofs.v, ReflProofs.v. *)
+From QV Require Import Wire WireDefs WireProofs ReflProofs ParseOpt WireTop WireRefute.
 Local Open Scope N_scope.
+
+(* spec_enc is the serialization written from doc/about-qimessaging.md.  For every type and
+   every well-typed value (maps in whatever order the encoder iterates them): *)
+
+(* the reflection encoder writes exactly the documented bytes *)
+Theorem C03_refl_enc : forall c v t, refl_drop8 c = false -> has_ty v t = true -> refl_domain t = true ->
+  refl_enc c v = spec_enc v.
+Proof. exact refl_enc_spec. Qed.
+Print Assumptions C03_refl_enc.
+
+(* the signature-driven reader accepts exactly those bytes and returns them unchanged *)
+Theorem C03_sig_read : forall c v t fuel rest, value_reader_no_len c = false ->
+  good_ty t = true -> has_ty v t = true -> (dyn_depth v <= fuel)%nat ->
+  sig_read parse_opt c fuel t (spec_enc v ++ rest) = ROk (spec_enc v, rest).
+Proof. exact sig_read_spec_top. Qed.
+Print Assumptions C03_sig_read.
+
+(* the reflection decoder recovers the value (lists/maps within its 4096 bound, distinct keys) *)
+Theorem C03_refl_dec : forall c v t rest, refl_drop8 c = false ->
+  good_ty t = true -> has_ty v t = true -> refl_domain t = true -> lens_ok v = true -> keys_nodup v ->
+  refl_dec c tval_eqb t (spec_enc v ++ rest) = ROk (v, rest).
+Proof. exact refl_dec_spec. Qed.
+Print Assumptions C03_refl_dec.
+
+(* the typed decoder of the documented format (what generated code implements) is its inverse *)
+Theorem C03_spec_dec : forall v t fuel rest, good_ty t = true -> has_ty v t = true -> (dyn_depth v <= fuel)%nat ->
+  spec_dec parse_opt fuel t (spec_enc v ++ rest) = ROk (v, rest).
+Proof. exact spec_dec_enc_top. Qed.
+Print Assumptions C03_spec_dec.
 
 Theorem C03_refuted_value_reader :
   has_ty dyn5 (TS SValue) = true /\
   exists d, sig_read parse_opt only_value_reader 1 (TS SValue) (spec_enc dyn5) = ROk (d, []) /\ d <> spec_enc dyn5.
-Proof. exact sig_read_value_refuted. Qed.
+Proof. exact WireRefute.sig_read_value_refuted. Qed.
 Print Assumptions C03_refuted_value_reader.
-
 Theorem C03_refuted_drop8 :
   has_ty s8 (TTuple [TS SI8; TS SI32]) = true /\ refl_enc only_drop8 s8 <> spec_enc s8.
-Proof. exact refl_drop8_refuted. Qed.
+Proof. exact WireRefute.refl_drop8_refuted. Qed.
 Print Assumptions C03_refuted_drop8.
+
+Example C03_nonvacuous :
+  good_ty ex_ty = true /\ has_ty ex_val ex_ty = true /\ dyn_depth ex_val = 1%nat /\ (List.length (spec_enc ex_val) = 39)%nat.
+Proof. exact ex_val_ok. Qed.
